@@ -146,6 +146,11 @@ def gen_decision(rng):
         target['auth_token'] = 'tok-123'
         if isinstance(target['nested'], dict):
             target['nested']['admin_password'] = 'pw'
+    if rng.random() < 0.25:
+        # a dict whose keys are not all strings (JSON turns them into
+        # strings; they are not mutually orderable)
+        target['ports'] = {'__mixedkeys__': [[22, 'ssh'], ['default', 'deny'],
+                                             [None, 'x']][:rng.choice((2, 3))]}
     if rng.random() < 0.3:
         target['security_groups'] = {'__tuple__': rng.choice(
             ([], ['sg-1', 'sg-2'], [1, [2, 3]]))}
@@ -364,6 +369,8 @@ def _materialise(target):
             opaque[k] = out[k]
         elif isinstance(v, dict) and '__tuple__' in v:
             out[k] = tuple(copy.deepcopy(v['__tuple__']))
+        elif isinstance(v, dict) and '__mixedkeys__' in v:
+            out[k] = {kk: vv for kk, vv in v['__mixedkeys__']}
         else:
             out[k] = copy.deepcopy(v)
     return out, opaque
